@@ -76,7 +76,7 @@ def attach_hooks(run):
             shadow[id(self)][1][LOADARG[type(self).__name__]] = np.array(v, float)
             run.seen("items.update-shadow")
 
-    for cls in (M.SolidBodyForce, M.SolidBodyGravity, M.PointLoad):
+    for cls in (M.SolidBodyForce, M.SolidBodyGravity, M.PointLoad, M.SolidBodyPressure):
         attach.wrap_init(cls, init_post)
         attach.wrap_method(cls, "update", pre=update_pre, post=update_post)
 
@@ -191,6 +191,19 @@ def attach_hooks(run):
                     "%s: nodal forces do not sum to -p * integrated current area vector" % lab,
                     unit="resultant:" + lab + (":closed" if closed else ":open"), config=(lab, closed),
                     sample={"item": lab, "closed_surface": bool(closed), "sum": got.tolist(), "-p*int(da)": exp.tolist()})
+        a = asked(self)
+        pk = kwargs.get("pressure", args[1] if len(args) > 1 else None)
+        if a is not None and pk is not None:
+            a["pressure"] = pk  # a pressure handed to the assembler replaces the stored one (documented)
+        if a is not None and np.ndim(a.get("pressure")) == 0:
+            p_user = 0.0 if a.get("pressure") is None else float(a["pressure"])
+            exp_user = (-p_user * da)[:d]
+            if kind == "FieldAxisymmetric":
+                exp_user = exp_user[:1]
+            run.compare("items.resultant", "item=%s clause=resultant-of-requested-pressure" % lab,
+                        maxabs(got - exp_user) / max(abs(p_user) * float(np.abs(w).sum()), 1e-300), 1e-11,
+                        "%s: nodal forces do not sum to minus the latest requested pressure times the integrated current area vector" % lab,
+                        unit="requested:SolidBodyPressure", config=("requested", lab, closed))
         if closed and kind != "FieldAxisymmetric":
             run.compare("items.resultant", "item=%s clause=closed-surface-zero" % lab, maxabs(got) / scale, 1e-11,
                         "%s: pressure on a closed surface has a resultant" % lab, unit="resultant:" + lab + ":closed-zero")
@@ -317,6 +330,9 @@ def case_loads(rep):
                     p = fem.SolidBodyPressure(fb, pressure=float(rng.uniform(-2, 2)))
                     p.assemble.vector(fb)
                     p.assemble.vector(fb, pressure=float(rng.uniform(-2, 2)))
+                    p.assemble.vector(fb)
+                    p.update(float(rng.uniform(-2, 2)))
+                    p.assemble.vector(fb)
             # constraints
             mesh = fem.Cube(n=(3, 3, 2))
             mesh.update(points=np.vstack([mesh.points, [0.5, 0.5, 1.4]]))
@@ -363,7 +379,7 @@ SPEC = {
         "balance:moment:SolidBody[FieldPlaneStrain]", "balance:force:SolidBody[FieldAxisymmetric]",
         "balance:force:SolidBody[Field,mixed]", "balance:moment:SolidBody[Field,mixed]",
         "balance:force:SolidBodyNearlyIncompressible[Field]", "balance:moment:SolidBodyNearlyIncompressible[Field]",
-        "balance:force:SolidBodyNearlyIncompressible[FieldAxisymmetric]", "resultant:SolidBodyForce", "resultant:SolidBodyGravity", "requested:SolidBodyForce", "requested:SolidBodyGravity", "requested:PointLoad",
+        "balance:force:SolidBodyNearlyIncompressible[FieldAxisymmetric]", "resultant:SolidBodyForce", "resultant:SolidBodyGravity", "requested:SolidBodyForce", "requested:SolidBodyGravity", "requested:PointLoad", "requested:SolidBodyPressure",
         "resultant:PointLoad", "resultant:SolidBodyPressure[Field]:open", "resultant:SolidBodyPressure[Field]:closed",
         "resultant:SolidBodyPressure[Field]:closed-zero", "resultant:SolidBodyPressure[FieldPlaneStrain]:open",
         "resultant:SolidBodyPressure[FieldAxisymmetric]:open", "mass:symmetric", "mass:psd", "mass:total",
